@@ -98,7 +98,10 @@ class Worker:
 def build_seed(log=None):
     """Compile the harness crate once (all harnesses, codegen only) into the seed target dir."""
     seed = os.path.join(WORK, "kani-seed")
-    cmd = ["cargo", "kani", "--target-dir", seed, "--only-codegen", "-Z", "stubbing"]
+    # one small harness only: code generation for all ~600 harnesses takes > 15 min and gigabytes; the dependencies and
+    # the crate metadata are what the workers need warm
+    cmd = ["cargo", "kani", "--target-dir", seed, "--only-codegen", "-Z", "stubbing",
+           "--harness", "crypto::core::verif::c04_increment_is_plus_one", "--exact"]
     rc, out, dt, to = run_capped(cmd, HARNESS, base_env(), 1200, None, log)
     return rc == 0 and not to, out, dt
 
